@@ -165,6 +165,43 @@ def c18_jobs(tier):
     return [job("slots", scale(tier, 120000, 4000000), workers=16, tag=scale(tier, "quick", ""), step_cap=400000)]
 
 
+def c16_jobs(tier):
+    n = scale(tier, 12000, 500000)
+    tag = scale(tier, "quick", "")
+    common = dict(solo=True, step_cap=200000, params={"solo_bound": 30000})
+    js = []
+    for h in ("rclient0", "rclient1", "rclient2", "qhist0", "qhist1", "qhist2", "mhist0", "mhist1", "vhist0", "vhist2"):
+        js.append(job(h, n, workers=1, tag=tag, **common))
+    js.append(job("qhist3", n, workers=1, tag="C05" + ("+quick" if tier != "thorough" else ""), **common))
+    js.append(job("qhist4", n, workers=1, tag="C06" + ("+quick" if tier != "thorough" else ""), **common))
+    js.append(job("dhist", n, workers=1, tag=tag, **common))
+    js.append(job("lrhist", n, workers=1, **common))
+    js.append(job("slhist", n, workers=1, tag=tag, **common))
+    for j in js:
+        if j["harness"].startswith("qhist") and not j.get("tag"):
+            j["tag"] = "quick" if tier != "thorough" else ""
+    return js
+
+
+def c03_jobs(tier):
+    n = scale(tier, 16000, 600000)
+    tag = scale(tier, "quick", "")
+    js = []
+    windows = [16] if tier != "thorough" else [16, 64, 256]
+    for variant in ("prod_ndebug", "tsan_ndebug"):
+        for w in windows:
+            common = dict(weak=True, window=w, variant=variant, step_cap=60000)
+            for h in ("rclient0", "rclient1", "rclient2", "qhist0", "qhist1", "qhist2", "qhist3", "qhist4", "mhist0", "mhist1", "vhist0", "vhist1", "vhist2",
+                      "dhist", "lrhist", "slhist"):
+                t = tag
+                if h == "qhist3":
+                    t = "C05" + ("+quick" if tier != "thorough" else "")
+                elif h == "qhist4":
+                    t = "C06" + ("+quick" if tier != "thorough" else "")
+                js.append(job(h, n if variant.startswith("prod") else n // 2, workers=1, tag=t, **common))
+    return js
+
+
 NOT_YET = {}
 
 PROPS = {
@@ -447,5 +484,45 @@ PROPS = {
                 "guards were held at once. Distinct: operation sequence.",
         "nontrivial_floor": 0.5,
         "assumptions": ["single guard-using thread at a time plus a helper thread for retire+scan"],
+    },
+    "C16": {
+        "jobs": c16_jobs,
+        "level_text": "Safety approximation of lock-freedom: from sampled reachable states (a generated schedule prefix with the other threads "
+                      "suspended wherever they are, also in the middle of operations) one thread runs alone until its current or next "
+                      "lock-free operation returns; it must do so within a bounded number of its own steps.",
+        "level_note": "Trusted: runtime; the bound (30000 own scheduling points) is far above any legitimate solo completion (bounded retry "
+                      "loops included) - an operation that waits for a suspended thread never finishes and hits it. Blocking operations "
+                      "(vyukov strong operations, vyukov_hash_map updates/find/iterators, seqlock writes and single-slot loads, "
+                      "left_right::update) are never the measured operation but other threads may be suspended inside them. Nikolaev queues "
+                      "run with fewer threads than slots per node, their documented condition.",
+        "technique": "property-based testing: generated programs + schedule prefixes + generated switch point, then solo execution with a step-count oracle",
+        "rule": "case = any Engine-A harness (reclaimer client, all queues, set/map, vyukov map readers, deque, left_right readers, seqlock "
+                "multi-slot loads) x program x schedule prefix x switch step (counted from the start of the concurrent part) x victim. "
+                "Oracle: the victim finishes the lock-free operation it is in (or its next one) within 30000 of its own steps while everybody "
+                "else is frozen. Non-trivial: at the switch at least one other thread was suspended inside an operation on the same object. "
+                "Distinct: program + switch point.",
+        "nontrivial_floor": 0.05,
+        "assumptions": ["sequentially consistent interleavings; no spurious CAS failures", "finite sample of reachable states; lock-freedom itself (a liveness property) is not established"],
+    },
+    "C03": {
+        "jobs": c03_jobs,
+        "level_text": "Sampled exploration of weak executions: every Engine-A harness (reclaimer client, all queues, set/map, vyukov map, "
+                      "deque, left_right, seqlock) runs under a view-based operational model of release/acquire, fences and seq_cst in which a "
+                      "load may return any store that happens-before does not rule out and that was overwritten at most W scheduling steps "
+                      "ago; a FastTrack-style vector-clock race detector checks every instrumented plain access (and every free as a write) "
+                      "against the model's happens-before, and the owning property's oracles are re-evaluated with happens-before precedence.",
+        "level_note": "Trusted: the memory model in engine/vrt.cpp (every deviation from C++11 is towards more synchronisation: append-only "
+                      "modification order, seq_cst accesses as strong as seq_cst fences, RMWs and failed CAS read the newest store), so an "
+                      "execution it produces is RC11-consistent; incompleteness: no load buffering, no store inserted into the middle of a "
+                      "modification order, plain data always reads the newest value (covered by the race detector only). Built with NDEBUG "
+                      "(asserts perform seq_cst loads). Both the production orders and the TSAN_MEMORY_ORDER variant are run.",
+        "technique": "property-based testing: generated programs + schedules + generated reads-from choices under a view-based weak memory model, vector-clock race detection, linearizability with happens-before precedence",
+        "rule": "case = (harness, configuration, program, schedule, reads-from decisions, spurious weak-CAS failures) with staleness window W=16 "
+                "(thorough: 16, 64, 256), stale-read probability 5-50% per case, production and TSan memory-order variants. Oracles: data race "
+                "on heap data (incl. free-as-write), use-after-free, guard registry, lifecycle, canary, linearizability with hb precedence. "
+                "Non-trivial: as the owning property, and the run counts cases in which at least one load returned a non-newest store "
+                "(cases_with_stale_read). Distinct: program + history.",
+        "nontrivial_floor": 0.05,
+        "assumptions": ["executions are a subset of the RC11-consistent ones", "race detection on heap (arena) data only: stack and thread-local storage are excluded"],
     },
 }
